@@ -2,3 +2,4 @@ import DDP.Generated.Keywords
 import DDP.Impl.Scanner
 import DDP.Impl.OrderedMap
 import DDP.Impl.TokenKey
+import DDP.Impl.Types
